@@ -62,7 +62,7 @@ def mkscript(script):
 # ---------------------------------------------------------------------------------------------
 # user callables (mirrors Driver/Tools.lean parseFn)
 
-FLAVOURS = ("def", "async", "partial", "obj")
+FLAVOURS = ("def", "async", "partial", "obj", "objx")
 
 
 def _key(v):
@@ -132,6 +132,18 @@ def make_fn(spec, idx, log, flavour="def"):
             await pre()
             return body(args)
         return functools.partial(g, "tag")
+    if flavour == "objx":
+        # callable object returning a coroutine that fails SYNCHRONOUSLY (at call time) when it is to fail
+        class ObjX:
+            def __call__(self, *args):
+                if spec.get("fail_at") == state["n"]:
+                    return body(args)        # raises here, no coroutine is created
+
+                async def co():
+                    await pre()
+                    return body(args)
+                return co()
+        return ObjX()
     if flavour == "obj":
         class Obj:
             def __call__(self, *args):
